@@ -4,7 +4,7 @@
 use std::{
     cmp::Ordering,
     collections::{hash_map::DefaultHasher, BTreeMap, HashMap, HashSet},
-    hash::{Hash, Hasher},
+    hash::Hash,
 };
 
 use bytes::BytesMut;
@@ -81,10 +81,57 @@ pub fn tag_name(t: &Tag) -> String {
     String::from_utf8(b.to_vec()).expect("tag names are UTF-8")
 }
 
-fn h<T: Hash>(t: &T) -> u64 {
+/// A hasher in the style of rustc's FxHasher: every `write` call is consumed in 8-byte words with the
+/// last one zero-padded, so the result depends on how the bytes were split over calls. `Hash` demands
+/// `a == b => hash(a) == hash(b)` for EVERY hasher; std's SipHash alone cannot see a violation that
+/// consists in feeding the same bytes in different pieces.
+#[derive(Default, Clone)]
+pub struct WordHasher(u64);
+
+impl std::hash::Hasher for WordHasher {
+    fn write(&mut self, bytes: &[u8]) {
+        for chunk in bytes.chunks(8) {
+            let mut w = [0u8; 8];
+            w[..chunk.len()].copy_from_slice(chunk);
+            self.0 = (self.0.rotate_left(5) ^ u64::from_le_bytes(w)).wrapping_mul(0x51_7c_c1_b7_27_22_0a_95);
+        }
+    }
+    fn finish(&self) -> u64 {
+        self.0
+    }
+}
+
+/// Byte-wise FNV-1a that also mixes in the length of every `write` call.
+#[derive(Clone)]
+pub struct CallHasher(u64);
+
+impl Default for CallHasher {
+    fn default() -> Self {
+        CallHasher(0xcbf2_9ce4_8422_2325)
+    }
+}
+
+impl std::hash::Hasher for CallHasher {
+    fn write(&mut self, bytes: &[u8]) {
+        for b in bytes.iter().copied().chain([bytes.len() as u8, 0xfe]) {
+            self.0 = (self.0 ^ u64::from(b)).wrapping_mul(0x0000_0100_0000_01b3);
+        }
+    }
+    fn finish(&self) -> u64 {
+        self.0
+    }
+}
+
+/// the value's hash under three hashers (SipHash, word-wise, call-sensitive)
+pub fn h<T: Hash>(t: &T) -> (u64, u64, u64) {
+    use std::hash::Hasher;
     let mut s = DefaultHasher::new();
     t.hash(&mut s);
-    s.finish()
+    let mut w = WordHasher::default();
+    t.hash(&mut w);
+    let mut c = CallHasher::default();
+    t.hash(&mut c);
+    (s.finish(), w.finish(), c.finish())
 }
 
 fn alternating(s: &str) -> String {
@@ -119,6 +166,57 @@ fn tag_values() -> Vec<(Tag, String)> {
     }
     out.push((Tag::any(), "any".to_string()));
     out
+}
+
+#[derive(Debug, Clone, Serialize, Deserialize)]
+pub struct MassCase {
+    pub seed: u64,
+}
+
+fn check_mass(case: &MassCase) -> CaseResult {
+    let mut r = CaseResult::new();
+    r.nontrivial();
+    let table = tag_table();
+    let lens: Vec<usize> = table.iter().map(|(_, n)| n.len()).collect();
+    let mut x = case.seed | 1;
+    let mut next = move || {
+        // xorshift64*: cheap, and every choice is a function of the case's seed
+        x ^= x >> 12;
+        x ^= x << 25;
+        x ^= x >> 27;
+        x.wrapping_mul(0x2545_f491_4f6c_dd1d)
+    };
+    let mut buf = String::with_capacity(40);
+    for _ in 0..200_000u32 {
+        let len = lens[(next() % lens.len() as u64) as usize];
+        buf.clear();
+        let mut bits = 0u64;
+        for i in 0..len {
+            if i % 8 == 0 {
+                bits = next();
+            }
+            let b = (bits & 0xff) as u8;
+            bits >>= 8;
+            let c = if b >= 224 { b"ABCDEFGHIJKLMNOPQRSTUVWXYZ_-__--"[(b - 224) as usize] } else { b'a' + b % 26 };
+            buf.push(c as char);
+        }
+        match Tag::try_from(buf.as_str()) {
+            Ok(Tag::Other(s)) if *s == *buf => {}
+            Ok(other) => {
+                if table.iter().any(|(_, n)| n.eq_ignore_ascii_case(&buf)) {
+                    continue;
+                }
+                r.fail(format!("Tag::try_from({buf:?}) = {other:?} (renders as {:?}), expected the catch-all carrying that very string", tag_name(&other)));
+                return r;
+            }
+            Err(e) => {
+                r.fail(format!("Tag::try_from({buf:?}) rejected a name over [A-Za-z_-]: {e}"));
+                return r;
+            }
+        }
+    }
+    r.execs = 200_000;
+    r
 }
 
 #[derive(Debug, Clone, Serialize, Deserialize)]
@@ -175,6 +273,12 @@ fn check_tag_pair(values: &[(Tag, String)], p: &Pair) -> CaseResult {
     hs.insert(a.clone());
     if hm.contains_key(b) != same || bm.contains_key(b) != same || hs.contains(b) != same {
         r.fail(format!("map/set lookup of {b:?} in a collection holding {a:?} is wrong (same name: {same})"));
+    }
+    // the same with a map that uses a word-wise hasher (what the popular fast hash maps do)
+    let mut wm: HashMap<Tag, i32, std::hash::BuildHasherDefault<WordHasher>> = HashMap::default();
+    wm.insert(a.clone(), 1);
+    if same && !wm.contains_key(b) {
+        r.fail(format!("lookup of {b:?} in a HashMap with a word-wise hasher holding the equal key {a:?} misses"));
     }
     r
 }
@@ -347,6 +451,13 @@ pub fn property(_tier: Tier) -> Property {
                 cases: (50_000, 30_000_000),
                 strategy: Box::new(|_t: Tier| tag_string().prop_map(|s| StrCase { s }).boxed()),
                 check: Box::new(check_try_from),
+            }),
+            Box::new(RandomPart {
+                name: "unknown_names_en_masse",
+                rule: "each case = 200 000 pseudo-random names (derived from the case's 64-bit seed) of exactly the length of some known tag name over [a-z] (1 in 8 characters from [A-Z_-]): every one that is not a known name in some letter case must parse to the catch-all carrying exactly that string, and the same for Subsystem via as_str of a parsed idle reply is covered by subsystem_events. Purpose: a lookup that identifies known names by anything less than the name itself (a 32-bit hash, a prefix, a length class) confuses one unknown name in 10^9-10^10 with a known one; quick examines 3*10^8 names, thorough 4*10^9. non-trivial = every case",
+                cases: (1_600, 20_000),
+                strategy: Box::new(|_t: Tier| any::<u64>().prop_map(|seed| MassCase { seed }).boxed()),
+                check: Box::new(check_mass),
             }),
             crate::props::c20_events::part(),
         ],
